@@ -83,16 +83,11 @@ Section Loops.
     end.
 End Loops.
 
-(* what the replacer compiled from a captured value reproduces: the value without its
-   *ast.Object links (comment groups are already absent from the trees) *)
-Fixpoint strip (v : val) : val :=
-  match v with
-  | Ptr t x => if N.eqb t T_P_ast_Object then Nil t else Ptr t (strip x)
-  | Iface t x => Iface t (strip x)
-  | Struct t fs => Struct t (map strip fs)
-  | Slice t vs => Slice t (map strip vs)
-  | _ => v
-  end.
+(* what the replacer compiled from a captured value reproduces: a copy of the value (comment
+   groups are already absent from the trees).  Ident.Obj is kept - the object itself is not
+   copied - so that a local variable is still told from the package of the same name when
+   imports are cleaned up (repo fix 2ef8625; before it the copy lost its *ast.Object links) *)
+Definition strip (v : val) : val := v.
 
 Section Replace.
   Variable mk : N -> option mkind.            (* Meta.LookupVar *)
